@@ -199,11 +199,11 @@ _reg(Tool("sum", "agg", (1, 1),
 _reg(Tool("min", "agg", (1, 1),
           lambda S, F, P, V: a.min(S[0], **_kw(key=F.get("key", _ABSENT), default=_opt(V, "default"))),
           lambda S, F, P, V: builtins.min(S[0], **_kw(key=F.get("key", _ABSENT), default=_opt(V, "default"))),
-          optional_roles=(("key", "table"),), profiles=(I, N, "unorderable", 'grumpy-order', "ltonly", "partial", "infinite")))
+          optional_roles=(("key", "table"),), profiles=(I, N, "unorderable", 'grumpy-order', "ltonly", "ltpure", "partial", "infinite")))
 _reg(Tool("max", "agg", (1, 1),
           lambda S, F, P, V: a.max(S[0], **_kw(key=F.get("key", _ABSENT), default=_opt(V, "default"))),
           lambda S, F, P, V: builtins.max(S[0], **_kw(key=F.get("key", _ABSENT), default=_opt(V, "default"))),
-          optional_roles=(("key", "table"),), profiles=(I, N, "unorderable", 'grumpy-order', "ltonly", "partial", "infinite")))
+          optional_roles=(("key", "table"),), profiles=(I, N, "unorderable", 'grumpy-order', "ltonly", "ltpure", "partial", "infinite")))
 _reg(Tool("list", "agg", (0, 1),
           lambda S, F, P, V: a.list(*S[:1]),
           lambda S, F, P, V: builtins.list(*S[:1]), profiles=(I, N), streaming=False))
@@ -221,7 +221,7 @@ _reg(Tool("dict", "agg", (0, 1),
 _reg(Tool("sorted", "agg", (1, 1),
           lambda S, F, P, V: a.sorted(S[0], key=F.get("key"), reverse=P["reverse"]),
           lambda S, F, P, V: builtins.sorted(S[0], key=F.get("key"), reverse=P["reverse"]),
-          optional_roles=(("key", "table"),), profiles=(I, N, "unorderable", 'grumpy-order', "ltonly", "partial", "infinite"),
+          optional_roles=(("key", "table"),), profiles=(I, N, "unorderable", 'grumpy-order', "ltonly", "ltpure", "partial", "infinite"),
           streaming=False))
 _reg(Tool("reduce", "agg", (1, 1),
           lambda S, F, P, V: a.reduce(F["fn"], S[0], *_positional_opt(V, "initial")),
@@ -237,11 +237,11 @@ _reg(Tool("reduce_builtin", "agg", (1, 1),
 _reg(Tool("nlargest", "agg", (1, 1),
           lambda S, F, P, V: a.nlargest(S[0], P["n"], key=F.get("key")),
           lambda S, F, P, V: heapq.nlargest(P["n"], S[0], key=F.get("key")),
-          optional_roles=(("key", "table"),), profiles=(I, N, 'grumpy-order', "unorderable1"), window=None))
+          optional_roles=(("key", "table"),), profiles=(I, N, 'grumpy-order', "unorderable1", "ltpure"), window=None))
 _reg(Tool("nsmallest", "agg", (1, 1),
           lambda S, F, P, V: a.nsmallest(S[0], P["n"], key=F.get("key")),
           lambda S, F, P, V: heapq.nsmallest(P["n"], S[0], key=F.get("key")),
-          optional_roles=(("key", "table"),), profiles=(I, N, 'grumpy-order', "unorderable1"), window=None))
+          optional_roles=(("key", "table"),), profiles=(I, N, 'grumpy-order', "unorderable1", "ltpure"), window=None))
 
 ITER_TOOLS = [t.name for t in TOOLS.values() if t.kind == "iter"]
 AGG_TOOLS = [t.name for t in TOOLS.values() if t.kind == "agg"]
